@@ -35,9 +35,15 @@ def _base(node: ast.expr) -> str:
 
 
 def _unravel(node: ast.expr) -> list[str]:
+    """The names an assignment registers: plain (possibly starred) names only - a store into an attribute or an item
+    registers nothing (since the repair of KF_C17_6; the base names were registered before)."""
     if isinstance(node, (ast.Tuple, ast.List)):
         return [n for e in node.elts for n in _unravel(e)]
-    return [_base(node)]
+    _base(node)          # a target with an unnameable root stays outside the model
+    inner = node
+    while isinstance(inner, ast.Starred):
+        inner = inner.value
+    return [inner.id] if isinstance(inner, ast.Name) else []
 
 
 def _py_names(node: ast.expr) -> list[str]:
